@@ -10,7 +10,7 @@ from .common import FnCtx, SCtx, sctx
 from .c18 import handler_reraises
 
 PROP = "C09"
-FLOORS = {"C09.R1": 3, "C09.R2": 5, "C09.R3": 3, "C09.R4": 5, "C09.R5": 6, "C09.R6": 3, "C09.R7": 2, "C09.R8": 4}
+FLOORS = {"C09.R1": 3, "C09.R2": 5, "C09.R3": 3, "C09.R4": 5, "C09.R5": 6, "C09.R6": 3, "C09.R7": 2, "C09.R8": 4, "C09.R9": 2}
 META = {
     "explanation": "Control skeleton of Optimize.solve on its CFG (helpers inlined): every normally returning path passes, after the "
                    "last call that can move knobs (self.step), a branch on which `not assert_within_tol or within tolerance` is known; "
@@ -322,6 +322,9 @@ def check(col: Collector):
         shared(col, "C09.R8", [c15._mask_columns], select=lambda o: "add_point_to_log" in o.construct,
                why="the flags restored after a failed solve() are those add_point_to_log wrote as iteration 0")
     from . import c10
+    with col.rule():
+        shared(col, "C09.R9", [c10._limits], select=lambda o: construct_tag(o) in ("trial-equals-commit", "both-limit-sides"),
+               why="the flag solve() trusts belongs to the trial point: it must be the point the knobs are then set to, limits applied")
     with col.rule():
         shared(col, "C09.R7", [c10._masks], select=lambda o: construct_tag(o) == "from-active-flags",
                why="'every active target within tolerance' is judged with mask_output: it must be computed from the current active flags")
